@@ -10,25 +10,58 @@ use std::path::PathBuf;
 /// Permissive line model for "inside the document": lines split at '\n' (the server's own
 /// notion), a column may be counted in UTF-16 units or scalars (whichever is larger = UTF-16).
 pub struct Lines {
+    /// UTF-16 length of every line under the server-side split in force ('\n', '\r\n', lone '\r')
     pub lens_utf16: Vec<u32>,
     pub lens_scalar: Vec<u32>,
+    /// the same under a '\n'-only split (accepted as well: which split is right is C23's subject)
+    alt_utf16: Vec<u32>,
+}
+
+fn split_lsp(text: &str) -> Vec<&str> {
+    let b = text.as_bytes();
+    let mut out = Vec::new();
+    let mut start = 0;
+    let mut i = 0;
+    while i < b.len() {
+        if b[i] == b'\n' {
+            out.push(&text[start..i]);
+            start = i + 1;
+        } else if b[i] == b'\r' {
+            out.push(&text[start..i]);
+            if b.get(i + 1) == Some(&b'\n') {
+                i += 1;
+            }
+            start = i + 1;
+        }
+        i += 1;
+    }
+    out.push(&text[start..]);
+    out
 }
 
 impl Lines {
     pub fn new(text: &str) -> Lines {
         let mut a = Vec::new();
         let mut b = Vec::new();
-        for l in text.split('\n') {
+        for l in split_lsp(text) {
             a.push(l.encode_utf16().count() as u32);
             b.push(l.chars().count() as u32);
         }
-        Lines { lens_utf16: a, lens_scalar: b }
+        let alt = text.split('\n').map(|l| l.encode_utf16().count() as u32).collect();
+        Lines { lens_utf16: a, lens_scalar: b, alt_utf16: alt }
     }
     pub fn count(&self) -> u32 {
         self.lens_utf16.len() as u32
     }
+    /// longest admissible length of `line` in UTF-16 units over the accepted line models
+    pub fn line_len_max(&self, line: u64) -> u64 {
+        let a = self.lens_utf16.get(line as usize).copied().unwrap_or(0);
+        let b = self.alt_utf16.get(line as usize).copied().unwrap_or(0);
+        a.max(b) as u64
+    }
     pub fn pos_in_doc(&self, line: u64, ch: u64) -> bool {
-        (line as usize) < self.lens_utf16.len() && ch <= self.lens_utf16[line as usize] as u64
+        let ok = |lens: &Vec<u32>| (line as usize) < lens.len() && ch <= lens[line as usize] as u64;
+        ok(&self.lens_utf16) || ok(&self.alt_utf16)
     }
     /// position -> (line, char) tuple for ordering
     pub fn range_ok(&self, r: &Value) -> Result<((u64, u64), (u64, u64)), String> {
@@ -117,8 +150,9 @@ pub fn token_boundaries(text: &str) -> Vec<(u32, u32)> {
 
 pub fn offset_to_pos(text: &str, off: usize) -> (u32, u32) {
     let before = &text[..off];
-    let line = before.matches('\n').count() as u32;
-    let col = before.rsplit('\n').next().unwrap_or("").chars().count() as u32;
+    let lines = split_lsp(before);
+    let line = (lines.len() - 1) as u32;
+    let col = lines.last().map(|l| l.encode_utf16().count()).unwrap_or(0) as u32;
     (line, col)
 }
 
@@ -135,4 +169,66 @@ pub fn sample<T: Clone>(rng: &mut Rng, xs: &[T], n: usize) -> Vec<T> {
 
 pub fn pos(line: u32, ch: u32) -> Value {
     json!({"line": line, "character": ch})
+}
+
+/// Snippets that exercise specific LSP features (signature help on the various callable shapes,
+/// completion triggers, array append, method chains, doc-tag completion, …). Documents of the
+/// "feature-snippets" family are concatenations of a few of them, optionally cut short to look
+/// like code that is being typed.
+pub const FEATURE_SNIPPETS: &[&str] = &[
+    "local t = {}\nsetmetatable(t, { __call = function() return 1 end })\nt()\nt(1, 2)\nt(\n",
+    "local c = setmetatable({}, { __call = function(self, a, b) return a end })\nc(1, )\nc()\n",
+    "local counter = setmetatable({}, {\n    __call = function()\n        return 1\n    end,\n})\nlocal y = counter()\nlocal z = counter( )\n",
+    "local one = setmetatable({}, { __call = function(self) return self end })\none()\none( )()\n",
+    "local k = setmetatable({}, { __call = function(...) return ... end, __index = function(t, key) return key end })\nk(k(), k.x)\n",
+    "---@class Cls\n---@overload fun(): Cls\n---@overload fun(a: integer, b: string): Cls\nlocal Cls = {}\nCls()\nCls(1, )\n",
+    "local arr = {1,2,3}\narr[#\n]\narr[#arr + 1] = 4\narr[#]\narr[#\n\n  ] = 5\n",
+    "local s = 'x'\ns:\ns:up\ns.\nlocal n = #s\n",
+    "local h = require(\"he\")\nh.\nh.new().\nlocal h2 = require('helper').new()\n",
+    "---@param a integer\n---@param b? string\n---@return boolean\nlocal function f(a, b) return true end\nf(\nf(1,\nf(1, 'x')\nf(f(1), f())\n",
+    "---@class P\n---@field x integer\n---@field y string\nlocal p = {}\np.x = 1\n---@type P\nlocal q = { x = , }\nq.\nq.x.\n",
+    "---@enum E\nlocal E = { A = 1, B = 2 }\n---@param e E\nlocal function g(e) end\ng(E.)\ng()\ng(E.A, E.B)\n",
+    "for i = 1, 10 do\n  if i % 2 == 0 then goto continue end\n  print(i)\n  ::continue::\nend\nfor k, v in pairs({}) do print(k, v) end\n",
+    "---@generic T\n---@param x T\n---@return T\nlocal function id(x) return x end\nlocal v = id(\nlocal w = id(id(1))\n",
+    "local function outer()\n  local function inner(a, b, ...)\n    return a, b, ...\n  end\n  return inner(1, 2, 3)\nend\nouter()()\n",
+    "---@alias Mode 'r'|'w'\n---@param m Mode\nlocal function open(m) end\nopen('')\nopen(\"\nopen('r')\n",
+    "local M = {}\nfunction M:method(a) return self end\nfunction M.static(a, b) end\nM:method(1):method(2):\nM.static(\nM:method(\n",
+    "---@type fun(a: integer, ...: string): string\nlocal cb\ncb(\ncb(1, 'a', \n",
+    "local str = string.format('%d', )\nprint(('x'):rep(3, ))\nprint((\"y\"):\n",
+    "---@diagnostic disable-next-line: \n---@\n---@param \n---@type \n---@class \n---@field \nlocal dt\n",
+    "return {\n  a = 1,\n  b = { c = function() end },\n  [1] = 'x',\n  ['k'] = {},\n}\n",
+    "local a <const> = 1\nlocal b <close> = nil\nlocal c, d = a, \n",
+    "---@class A\n---@operator call(integer): string\n---@operator add(A): A\n---@operator index(string): integer\n---@type A\nlocal a\na(1)\na(\nlocal r = a + a\nlocal i = a.anything\n",
+    "---@class Base\n---@field id integer\n---@class Derived: Base\n---@field name string\n---@type Derived\nlocal d\nd.\nd:\nd.id.\n",
+    "local co = coroutine.wrap(function(...) local x = ... end)\nco(\nlocal ok, err = pcall(function() error('x') end)\n",
+    "---@param cb fun(err: string?, data: table)\nlocal function async(cb) end\nasync(function(err, data)\n  data.\nend)\nasync(function() end, )\n",
+    "local t2 = { f = function(a) end, g = { h = function(self, b) end } }\nt2.f(\nt2.g:h(\nt2.g.h(\nt2['f'](\n",
+];
+
+pub fn feature_doc(rng: &mut Rng) -> String {
+    let n = rng.range(2, 5);
+    let mut out = String::new();
+    for _ in 0..n {
+        let s: &str = rng.pick(FEATURE_SNIPPETS);
+        if rng.chance(1, 4) {
+            // being typed: cut at a random char boundary
+            let mut cut = rng.range(1, s.len());
+            while !s.is_char_boundary(cut) {
+                cut -= 1;
+            }
+            out.push_str(&s[..cut]);
+            out.push('\n');
+        } else {
+            out.push_str(s);
+        }
+    }
+    out
+}
+
+/// every character offset of the text as a position (for small documents)
+pub fn all_positions(text: &str) -> Vec<(u32, u32)> {
+    let mut v: Vec<(u32, u32)> = text.char_indices().map(|(o, _)| offset_to_pos(text, o)).collect();
+    v.push(offset_to_pos(text, text.len()));
+    v.dedup();
+    v
 }
